@@ -213,7 +213,9 @@ def xlcm(*args):
 FUNCTIONS['LCM'] = wrap_func(xlcm)
 FUNCTIONS['LOG10'] = wrap_ufunc(np.log10)
 FUNCTIONS['LOG'] = wrap_ufunc(
-    lambda x, base=10: np.log(x) / np.log(base) if base else np.nan
+    lambda x, base=10: (  # `log10` is exact on the powers of ten.
+        np.log10(x) if base == 10 else np.log(x) / np.log(base)
+    ) if base else np.nan
 )
 FUNCTIONS['LN'] = wrap_ufunc(np.log)
 
